@@ -231,15 +231,44 @@ def run_seeded(repo, v, prop):
         shutil.rmtree(tmp, ignore_errors=True)
 
 
+def refactorings():
+    """Behaviour-preserving refactorings written by sub-agents (kept under refactorings/): every check must stay silent."""
+    root = os.path.join(VERIF, "refactorings")
+    out = []
+    if os.path.isdir(root):
+        for rid in sorted(os.listdir(root)):
+            pp = os.path.join(root, rid, "patch.diff")
+            if os.path.exists(pp):
+                out.append(dict(id="refactorings/" + rid, kind="twin", patch=pp))
+    return out
+
+
+def run_refactoring(repo, v, prop):
+    tmp = tempfile.mkdtemp(prefix="gsverif-refac-")
+    try:
+        shutil.copytree(os.path.join(repo, "graphslam"), os.path.join(tmp, "graphslam"), ignore=shutil.ignore_patterns("__pycache__"))
+        r = subprocess.run(["patch", "-p1", "-s", "--no-backup-if-mismatch", "-i", v["patch"]], cwd=tmp, capture_output=True, text=True)
+        if r.returncode:
+            return dict(id=v["id"], prop=prop, kind="twin", status="skipped", detail="patch does not apply to the analysed tree")
+        py = "/venv/bin/python" if os.path.exists("/venv/bin/python") else sys.executable
+        r = subprocess.run([py, "-B", "-m", "gsverif.cli", prop, "--tier", "quick", "--repo", tmp, "--no-evidence"],
+                           cwd=VERIF, capture_output=True, text=True, timeout=900)
+        status = "silent" if r.returncode == 0 else ("FALSE-ALARM" if r.returncode == 1 else "undecided")
+        tail = "\n".join(l for l in r.stdout.splitlines() if l.startswith(("  rule=", "ANALYSIS-ERROR")))[:400]
+        return dict(id=v["id"], prop=prop, kind="twin", status=status, exit=r.returncode, detail=tail)
+    finally:
+        shutil.rmtree(tmp, ignore_errors=True)
+
+
 def run_for_property(repo, prop, jobs=8):
     todo = [v for v in CATALOGUE if prop in v["props"]]
     seeded = seeded_for(prop)
-    if not todo and not seeded:
-        return []
+    refs = refactorings()
     with ThreadPoolExecutor(max_workers=jobs) as ex:
         a = list(ex.map(lambda v: run_variant(repo, v, prop), todo))
         b = list(ex.map(lambda v: run_seeded(repo, v, prop), seeded))
-    return a + b
+        c = list(ex.map(lambda v: run_refactoring(repo, v, prop), refs))
+    return a + b + c
 
 
 def selftest_into(run_, repo, prop):
@@ -247,7 +276,7 @@ def selftest_into(run_, repo, prop):
     res = run_for_property(repo, prop)
     fired = [r for r in res if r["status"] in ("fired", "fired-unnamed")]
     silent = [r for r in res if r["status"] == "silent"]
-    skipped = [r for r in res if r["status"] == "skipped"]
+    skipped = [r for r in res if r["status"] in ("skipped", "undecided")]
     bad = [r for r in res if r["status"] in ("MISSED", "FALSE-ALARM")]
     run_.extra["variants"] = dict(fired=len(fired), silent=len(silent), skipped=len(skipped), failed=len(bad),
                                   results=[dict(id=r["id"], kind=r["kind"], status=r["status"]) for r in res])
